@@ -152,7 +152,7 @@ plan("C05", "exploration",
 
 REAL_W8 = (" One layer (mode=realnet) replaces nothing: 2-5 instances named like the repository's signer certificates talk through Dirk's own sender (services/sender/grpc, TLS with the "
            "instance's certificate) into each other's real gRPC edge; names are mapped to the loopback address by a resolver registered in the worker process; faults there are single failing calls of "
-           "the receiving instance's process service.")
+           "the receiving instance's process service, and contribution replies altered on their way back (share replaced, commitments altered, vector shorter / longer / empty, with or without a share consistent with it).")
 REAL_W2 = ("REAL per instance: process/standard (DKG), receiver gRPC handlers, accountmanager/lister/signer handlers and services, ruler, locker, rules on badger, checker/static, fetcher/mem, "
            "unlocker/local, peers/static (Peer, All), distributed + nd wallets on a scratch store, keystorev4 (cost 2^10), herumi BLS. REPLACED: services/sender/grpc by the simulated "
            "transport (same protobuf messages through Marshal/Unmarshal into the destination's real receiver handler under the authenticated name the TLS interceptor would derive); "
